@@ -14,6 +14,7 @@
 #include <QTimer>
 
 #include <atomic>
+#include <chrono>
 #include <thread>
 #include <vector>
 
@@ -40,6 +41,8 @@ static void jot(const char *fmt, long a = 0, long b = 0)
     if (write(g_jfd, buf, size_t(n)) < 0) { }
 }
 
+static std::atomic<int> g_delivered { 0 }, g_leaving { 0 }, g_armedId { -1 };
+static int g_armedIdle = 0;
 static bool sinkFn(LogMessage &m)
 {
     if (g_delayUs > 0) usleep(useconds_t(g_delayUs));
@@ -52,7 +55,13 @@ static bool sinkFn(LogMessage &m)
         if (write(g_jfd, w.constData(), size_t(w.size())) < 0) { }
         return true;
     }
-    jot("D %ld %ld\n", t.mid(p + 3).toLong(), tid());
+    const long id = t.mid(p + 3).toLong();
+    jot("D %ld %ld\n", id, tid());
+    g_delivered++;
+    if (id == g_armedId.load()) { // see alignStop in main()
+        g_leaving = 1;
+        for (volatile int i = 0; i < g_armedIdle; ++i) { }
+    }
     return true;
 }
 
@@ -115,10 +124,30 @@ int main(int argc, char **argv)
     // ---- earlier move/reset cycles with traffic in each phase ----
     g_delayUs = 0;
     const int cycleMsgs = sc["cycleMsgs"].toInt();
+    // alignStop: the stop is issued at the very moment the worker finishes the last queued message. The sink raises a flag when
+    // it is about to return from that message and then idles for 0..400 loop iterations; the stopping thread waits for the flag,
+    // idles for 0..400 iterations as well and calls the stop. Both idle counts come from a generator seeded by the cycle number.
+    const bool alignStop = sc["alignStop"].toBool();
+    auto idle = [](int n) { for (volatile int i = 0; i < n; ++i) { } };
+    unsigned lcg = 12345u;
     if (config != "oneline")
         for (int c = 0; c < sc["cycles"].toInt(); c++) {
             s.toOwnThread();
-            for (int i = 0; i < cycleMsgs; i++) s.log();
+            if (alignStop) {
+                for (int i = 0; i + 1 < cycleMsgs; i++) s.log();
+                while (g_delivered.load() < g_nextId.load()) { } // worker thread is up and idle
+                lcg = lcg * 1664525u + 1013904223u;
+                g_armedIdle = int((lcg >> 16) % 400);
+                g_leaving = 0;
+                g_armedId = g_nextId.load();
+                s.log();
+                while (!g_leaving.load()) { }
+                lcg = lcg * 1664525u + 1013904223u;
+                idle(int((lcg >> 16) % 400));
+                g_armedId = -1;
+            } else {
+                for (int i = 0; i < cycleMsgs; i++) s.log();
+            }
             s.reset();
             for (int i = 0; i < cycleMsgs; i++) s.log();
         }
